@@ -150,6 +150,13 @@ where
             self.inner.event_enabled(event)
         } else {
             // otherwise, the event is disabled by this subscriber
+
+            // The event will not be dispatched, so nothing will consume the
+            // per-subscriber filter `enabled` state that was recorded for it.
+            // As in `enabled`, clear it when short-circuiting.
+            #[cfg(feature = "registry")]
+            filter::FilterState::clear_enabled();
+
             false
         }
     }
